@@ -128,6 +128,25 @@ def directed(tier):
                           'ops': [{'wait': 'connected', 'close_after': 1.5, 'fail': False,
                                    'reqs': [{'ch': 0, 'data': [1, 2, 1], 'k': 2, 'timeout': timeout, 'at': 0.01,
                                              'thread': 0}]}]})
+    # the reply to a request, the expiry of its retry timer and a second request with the same pattern all fall on the
+    # same virtual instant; priority schedules decide the order of the three threads
+    # the retry timer of A expires, the thread that runs the retry is kept off the CPU (starvation) while virtual time moves
+    # on (stall): the reply to A is dispatched and B (same pattern) is registered before the retry looks A up
+    for timeout in (0.05, 0.2):
+        for db in ((0.001, 0.004) if tier == 'quick' else (0.0005, 0.001, 0.002, 0.004, 0.008)):
+            for v in range(8 if tier == 'quick' else 30):
+                n += 1
+                plans.append({'seed': 920000 + n, 'scenario': 'directed-same-pattern-at-timer', 'sched': {'alt': v},
+                              'knobs': {'line_mean': [2, 3, 5][v % 3], 'p_stall': 0.5, 'stall_window': 0.02,
+                                        'needs_resending': True, 'lat': (0.001, 0.001), 'rates': {},
+                                        'echo_delay': round(timeout - 0.002 + db / 2, 6),
+                                        'p_starve': 0.3, 'starve_len': 2000},
+                              'device': dev,
+                              'ops': [{'wait': 'connected', 'close_after': 1.5, 'fail': False,
+                                       'reqs': [{'ch': 0, 'data': [1, 2, 1], 'k': 2, 'timeout': timeout, 'at': 0.01,
+                                                 'thread': 0},
+                                                {'ch': 0, 'data': [1, 2, 2], 'k': 2, 'timeout': timeout,
+                                                 'at': round(0.01 + timeout + db, 6), 'thread': 1}]}]})
     return plans
 
 
@@ -287,10 +306,17 @@ def execute(ctx):
         # wrap the retry entry point (looked up through the instance by the timer lambda)
         orig_retry = cf._no_answer_do_retry
 
+        retry_threads = {}
+
         def retry(pk, pattern, *a, **k):
             ev.append(('retry-begin', sim.now, id(pk), pattern))
             ctx.probe('retry timer fired')
-            return orig_retry(pk, pattern, *a, **k)
+            retry_threads[P.get_ident()] = id(pk)
+            try:
+                return orig_retry(pk, pattern, *a, **k)
+            finally:
+                retry_threads.pop(P.get_ident(), None)
+        state['retry_threads'] = retry_threads
         cf._no_answer_do_retry = retry
         orig_send = cf.send_packet
 
@@ -309,6 +335,24 @@ def execute(ctx):
         obs_by_thread = {}
 
         class ObservedDict(dict):
+            # the retry path looks its request up (under the library's lock) before it retransmits
+            def _lookup(self):
+                pid = state['retry_threads'].get(P.get_ident())
+                if pid is not None:
+                    ev.append(('retry-check', sim.now, pid))
+
+            def get(self, k, *d):
+                self._lookup()
+                return dict.get(self, k, *d)
+
+            def __contains__(self, k):
+                self._lookup()
+                return dict.__contains__(self, k)
+
+            def __getitem__(self, k):
+                self._lookup()
+                return dict.__getitem__(self, k)
+
             def keys(self):
                 ks = list(dict.keys(self))
                 o = obs_by_thread.get(P.get_ident())
@@ -517,20 +561,25 @@ def oracle(ctx, w, tx, ev, pk_first, slack, req_info=None, t_end=0.0):
     answered_at = {}     # pk id -> index in ev
     retry_begin = {}     # pk id -> list of indices
     sends = {}
+    retry_check = {}
     for i, e in enumerate(ev):
         if e[0] == 'answered':
             answered_at.setdefault(e[2], i)
         elif e[0] == 'retry-begin':
             retry_begin.setdefault(e[2], []).append(i)
+        elif e[0] == 'retry-check':
+            retry_check.setdefault(e[2], []).append(i)
     for i, e in enumerate(ev):
         if e[0] != 'tx':
             continue
         pid = e[3]
         a = answered_at.get(pid)
         if a is not None and a < i:
-            # excused only if the retry path had been entered before the answer was processed
+            # excused only if the retry path had looked the request up (found it pending) before the answer was processed;
+            # if the look-up is not observable, if the retry path had been entered before the answer
+            rc = [j for j in retry_check.get(pid, []) if j < i]
             rb = [j for j in retry_begin.get(pid, []) if j < i]
-            last_rb = rb[-1] if rb else None
+            last_rb = rc[-1] if rc else (rb[-1] if rb else None)
             n_tx_before = sum(1 for x in ev[:i] if x[0] == 'tx' and x[3] == pid)
             if n_tx_before >= 1 and (last_rb is None or last_rb > a):
                 ctx.violation('2', 'retransmitted-after-answer', 'request pk=%d transmitted at %.4f after its answer was '
@@ -554,7 +603,10 @@ def oracle(ctx, w, tx, ev, pk_first, slack, req_info=None, t_end=0.0):
                 continue
             sess = recs[0][2]
             end = min(ans_t.get(pid, 1e18), down.get(sess, 1e18), t_end)
-            last = max(r[1] for r in recs if r[1] <= end + 1e-12)
+            before_end = [r[1] for r in recs if r[1] <= end + 1e-12]
+            if not before_end:
+                continue        # first transmitted only after the link had started to go down
+            last = max(before_end)
             if end - last > info['timeout'] + slack + 1e-9:
                 ctx.violation('1', 'request-not-retransmitted', 'header=%#x data=%r (timeout %.3f) was last transmitted at '
                               '%.4f and stayed unanswered on an open link until %.4f' % (
